@@ -32,7 +32,7 @@ func c15DeadlockWitness() (reloadStack, lockStack string) {
 		switch {
 		case waiting && strings.Contains(g.text, "(*cluster).reload("):
 			reloadStack = g.text
-		case !waiting && (strings.Contains(g.text, "sync.(*Mutex).") || strings.Contains(g.text, "sync.(*RWMutex).")):
+		case !waiting && !strings.Contains(g.text, "internal_test.(*c15Etcd)") && (strings.Contains(g.text, "sync.(*Mutex).") || strings.Contains(g.text, "sync.(*RWMutex).")):
 			lockStack = g.text
 		}
 	}
@@ -58,6 +58,26 @@ func (w *c15World) reloadBlocked(what string) {
 		return
 	}
 	w.wedged = true
+	c15Wedged.Store(true)
+	if rs != "" {
+		held := false
+		for _, g := range c15PkgGoroutines() {
+			if strings.Contains(g.text, "internal_test.(*c15Sub).listener") {
+				held = true // a watch goroutine is still inside a gated listener
+			}
+		}
+		if !held {
+			var others []string
+			for _, g := range c15PkgGoroutines() {
+				if g.text != rs {
+					others = append(others, c15Trim(g.text, 700))
+				}
+			}
+			w.violate("C15:reload:hang:watchers-not-stopped", "%s: reload did not return within %v. It waits (not holding the cluster lock) for the old watch goroutines, which were all parked in their loops when it started and do not exit; no listener is held back by the harness. The reload never re-reads the snapshot, missed changes stay invisible.\n%s\n--- other goroutines of the package:\n%s",
+				what, c15Watchdog, c15Trim(rs, 900), strings.Join(others, "\n\n"))
+			return
+		}
+	}
 	var dump []string
 	for _, g := range c15Goroutines() {
 		if strings.Contains(g.text, c15Pkg) {
